@@ -12,16 +12,26 @@ package x509
 //@ pred oidEq(a, b) = len(a) == len(b) && forall(k, 0, len(a), a[k] == b[k])
 
 // "returns whether an extension with the given oid exists in extensions"
+// (The existential is written as a negated forall with the spec.mark trigger, see hasSAN below.)
 //@ func oidInExtensions
-//@   loop 1 invariant forall(j, 0, it, !oidEq(extensions[j].Id, oid))
-//@   ensures result <==> exists(j, 0, len(extensions), oidEq(extensions[j].Id, oid))
+//@   uses perreturn
+//@   loop 1 invariant spec.mark(it)
+//@   loop 1 invariant forall(j, 0, len(extensions), !spec.mark(j) || j == it || j > it || !oidEq(extensions[j].Id, oid), spec.mark(j))
+//@   ensures result <==> !forall(j, 0, len(extensions), !spec.mark(j) || !oidEq(extensions[j].Id, oid), spec.mark(j))
 //@   terminates
 
 //@ pred isSANOid(a) = len(a) == 4 && a[0] == 2 && a[1] == 5 && a[2] == 29 && a[3] == 17
 
+// hasSAN: some extension has the id-ce-subjectAltName OID (an existential, written as a negated
+// forall so that it carries an instantiation trigger). Triggers: quantifiers over positions are
+// triggered by spec.mark(j) (mark(j) is true for every j, /verif/specs/hostname.smt2) and carry
+// mark(j) as a premise, so that a position named in a goal always instantiates the matching
+// hypothesis; element triggers such as c.Extensions[j] proved unreliable (the solver normalises
+// the index arithmetic inside them).
+//@ pred hasSAN(c) = !forall(j, 0, len(c.Extensions), !spec.mark(j) || !isSANOid(c.Extensions[j].Id), spec.mark(j))
 //@ func (*Certificate).hasSANExtension
 //@   requires c != nil
-//@   ensures result <==> exists(j, 0, len(c.Extensions), isSANOid(c.Extensions[j].Id))
+//@   ensures result <==> hasSAN(c)
 //@   terminates
 
 // RFC 6125 6.4.1: ASCII-only lower-casing; same length, byte i is lc(in[i]).
@@ -50,11 +60,10 @@ package x509
 // ---------------------------------------------------------------- VerifyHostname (C09)
 // candIP: the host with one pair of enclosing brackets removed ("IP addresses may be written in [ ]").
 //@ pred candIP(h) = spec.unbracket(h)
-// The address denoted by the literal s (spec.ip_len / spec.ip_at, see net.ParseIP in
-// /verif/extern/hostname.contracts) is the same IP address as b (net.IP.Equal's documented rule).
-//@ pred litV4in6(s, y4) = spec.ip_len(s) == 16 && len(y4) == 4 && spec.ip_at(s, 0) == 0 && spec.ip_at(s, 1) == 0 && spec.ip_at(s, 2) == 0 && spec.ip_at(s, 3) == 0 && spec.ip_at(s, 4) == 0 && spec.ip_at(s, 5) == 0 && spec.ip_at(s, 6) == 0 && spec.ip_at(s, 7) == 0 && spec.ip_at(s, 8) == 0 && spec.ip_at(s, 9) == 0 && spec.ip_at(s, 10) == 0xff && spec.ip_at(s, 11) == 0xff && spec.ip_at(s, 12) == y4[0] && spec.ip_at(s, 13) == y4[1] && spec.ip_at(s, 14) == y4[2] && spec.ip_at(s, 15) == y4[3]
-//@ pred v4in6Lit(x16, s) = len(x16) == 16 && spec.ip_len(s) == 4 && x16[0] == 0 && x16[1] == 0 && x16[2] == 0 && x16[3] == 0 && x16[4] == 0 && x16[5] == 0 && x16[6] == 0 && x16[7] == 0 && x16[8] == 0 && x16[9] == 0 && x16[10] == 0xff && x16[11] == 0xff && x16[12] == spec.ip_at(s, 0) && x16[13] == spec.ip_at(s, 1) && x16[14] == spec.ip_at(s, 2) && x16[15] == spec.ip_at(s, 3)
-//@ pred ipLitSame(s, b) = (spec.ip_len(s) == len(b) && forall(i, 0, len(b), spec.ip_at(s, i) == b[i])) || litV4in6(s, b) || v4in6Lit(b, s)
+// The address denoted by the literal s (spec.ip_val, see net.ParseIP in
+// /verif/extern/hostname.contracts) is the same IP address as b (spec.ip_same: net.IP.Equal's
+// documented rule, on the byte strings of the two addresses).
+//@ pred ipLitSame(s, b) = spec.ip_same(spec.ip_val(s), spec.keystr(seq(b), len(b)))
 // Case-insensitive match of a certificate name p against host h. toLowerCaseASCII is only
 // known to return its argument or its lower-casing (see the notes: range over a string is
 // abstracted by govc), hence the two forms: ciSome = some combination matches, ciAll = all do.
@@ -62,23 +71,41 @@ package x509
 // letters (which is what the code does), both equal spec.hn_match(lower(p), lower(h)).
 //@ pred ciSome(p, h) = spec.hn_match(spec.lower(p), spec.lower(h)) || spec.hn_match(p, spec.lower(h)) || spec.hn_match(spec.lower(p), h) || spec.hn_match(p, h)
 //@ pred ciAll(p, h) = spec.hn_match(spec.lower(p), spec.lower(h)) && spec.hn_match(p, spec.lower(h)) && spec.hn_match(spec.lower(p), h) && spec.hn_match(p, h)
-//@ pred hasSAN(c) = exists(j, 0, len(c.Extensions), isSANOid(c.Extensions[j].Id))
 //@ pred plain(h) = !(len(h) >= 3 && h[0] == '[' && h[len(h)-1] == ']')
+// someIP / someDNS: "one of the certificate's IP SANs / DNS SANs ..." (an existential, written
+// as a negated forall so that it carries an instantiation trigger; spec.mark: see hostname.smt2).
+//@ pred someIP(c, s) = !forall(j, 0, len(c.IPAddresses), !ipLitSame(s, c.IPAddresses[j]), spec.mark(j))
+//@ pred noIP(c, s) = forall(j, 0, len(c.IPAddresses), !spec.mark(j) || !ipLitSame(s, c.IPAddresses[j]), spec.mark(j))
+//@ pred someDNS(c, h) = !forall(j, 0, len(c.DNSNames), !ciSome(c.DNSNames[j], h), spec.mark(j))
+//@ pred noDNS(c, h) = forall(j, 0, len(c.DNSNames), !spec.mark(j) || !ciAll(c.DNSNames[j], h), spec.mark(j))
+// The certificate is not modified (frame: nothing), so reading its fields in the entry state
+// (old) or in the final state is the same thing; each clause reads them in the state that lets
+// the solver instantiate by matching alone: existential conclusions and negative premises in
+// the entry state (terms of later states reach it through the frame conditions), universal
+// conclusions and positive existential premises in the final state.
+// The "allocated" preconditions are memory-model well-formedness (every slice stored in an
+// object that exists at entry refers to an array that exists at entry; true of every real
+// execution): they let the frame conditions of the allocating calls (net.ParseIP,
+// toLowerCaseASCII, strings.Split inside matchHostnames) cover the extension OIDs, the DNS
+// SANs and the IP SAN bytes.
 //@ func (*Certificate).VerifyHostname
 //@   requires c != nil
-//@   loop 1 invariant 0 <= it && it <= len(c.IPAddresses)
-//@   loop 1 invariant forall(j, 0, it, !ipLitSame(candidateIP, c.IPAddresses[j]))
-//@   loop 2 invariant 0 <= it && it <= len(c.DNSNames)
+//@   requires allocated(c.Extensions) && allocated(c.DNSNames) && allocated(c.IPAddresses)
+//@   requires forall(j, 0, len(c.Extensions), allocated(c.Extensions[j].Id), spec.mark(j))
+//@   requires forall(j, 0, len(c.IPAddresses), allocated(c.IPAddresses[j]), spec.mark(j))
+//@   loop 1 invariant 0 <= it && it <= len(c.IPAddresses) && spec.mark(it)
+//@   loop 1 invariant forall(j, 0, len(c.IPAddresses), !spec.mark(j) || j == it || j > it || !ipLitSame(candidateIP, c.IPAddresses[j]), spec.mark(j))
+//@   loop 2 invariant 0 <= it && it <= len(c.DNSNames) && spec.mark(it)
 //@   loop 2 invariant lowered == h || lowered == spec.lower(h)
-//@   loop 2 invariant forall(j, 0, it, !spec.hn_match(c.DNSNames[j], lowered) || !spec.hn_match(spec.lower(c.DNSNames[j]), lowered))
-//@   ensures [ip_sound] plain(h) && spec.ip_literal(h) && result == nil ==> exists(j, 0, len(c.IPAddresses), ipLitSame(h, c.IPAddresses[j]))
-//@   ensures [ip_complete] plain(h) && spec.ip_literal(h) && result != nil ==> forall(j, 0, len(c.IPAddresses), !ipLitSame(h, c.IPAddresses[j]))
-//@   ensures [san_sound] plain(h) && !spec.ip_literal(h) && hasSAN(c) && result == nil ==> exists(j, 0, len(c.DNSNames), ciSome(c.DNSNames[j], h))
-//@   ensures [san_complete] plain(h) && !spec.ip_literal(h) && hasSAN(c) && result != nil ==> forall(j, 0, len(c.DNSNames), !ciAll(c.DNSNames[j], h))
-//@   ensures [cn_sound] plain(h) && !spec.ip_literal(h) && !hasSAN(c) && result == nil ==> ciSome(c.Subject.CommonName, h)
-//@   ensures [cn_complete] plain(h) && !spec.ip_literal(h) && !hasSAN(c) && result != nil ==> !ciAll(c.Subject.CommonName, h)
-//@   ensures [br_ip_sound] !plain(h) && spec.ip_literal(candIP(h)) && result == nil ==> exists(j, 0, len(c.IPAddresses), ipLitSame(candIP(h), c.IPAddresses[j]))
-//@   ensures [br_ip_complete] !plain(h) && spec.ip_literal(candIP(h)) && result != nil ==> forall(j, 0, len(c.IPAddresses), !ipLitSame(candIP(h), c.IPAddresses[j]))
-//@   ensures [br_cn_sound] !plain(h) && !spec.ip_literal(candIP(h)) && !hasSAN(c) && result == nil ==> ciSome(c.Subject.CommonName, h)
+//@   loop 2 invariant forall(j, 0, len(c.DNSNames), !spec.mark(j) || j == it || j > it || !spec.hn_match(c.DNSNames[j], lowered) || !spec.hn_match(spec.lower(c.DNSNames[j]), lowered), spec.mark(j))
+//@   ensures [ip_sound] plain(h) && spec.ip_literal(h) && result == nil ==> someIP(c, h)
+//@   ensures [ip_complete] plain(h) && spec.ip_literal(h) && result != nil ==> noIP(c, h)
+//@   ensures [san_sound] plain(h) && !spec.ip_literal(h) && hasSAN(c) && result == nil ==> old(someDNS(c, h))
+//@   ensures [san_complete] plain(h) && !spec.ip_literal(h) && hasSAN(c) && result != nil ==> noDNS(c, h)
+//@   ensures [cn_sound] plain(h) && !spec.ip_literal(h) && !old(hasSAN(c)) && result == nil ==> old(ciSome(c.Subject.CommonName, h))
+//@   ensures [cn_complete] plain(h) && !spec.ip_literal(h) && !old(hasSAN(c)) && result != nil ==> !old(ciAll(c.Subject.CommonName, h))
+//@   ensures [br_ip_sound] !plain(h) && spec.ip_literal(candIP(h)) && result == nil ==> someIP(c, candIP(h))
+//@   ensures [br_ip_complete] !plain(h) && spec.ip_literal(candIP(h)) && result != nil ==> noIP(c, candIP(h))
+//@   ensures [br_cn_sound] !plain(h) && !spec.ip_literal(candIP(h)) && !old(hasSAN(c)) && result == nil ==> old(ciSome(c.Subject.CommonName, h))
 //@   uses perreturn
 //@   terminates
